@@ -134,7 +134,7 @@ def run_scenario(mod, sc):
     out = Outcome()
     try:
         mod.execute(sc, out)
-    except Exception as e:  # noqa: BLE001
+    except (Exception, SystemExit) as e:  # noqa: BLE001  (the library calls sys.exit() on one error path)
         # An exception that a check's oracle did not anticipate: if it was raised by the library itself (innermost
         # frame inside speckit/) on a call the scenario makes, that is the library failing, not the harness.
         where = _raised_inside_library(e)
